@@ -4,7 +4,7 @@
 import SV.TxCache.SelProofs
 import SV.TxCache.OrderProofs
 import SV.TxCache.ReachableProofs
-import SV.GenProofs
+import SV.GenProofs.TxSelection
 namespace SV.Props.C02
 open SV SV.TxCache
 
